@@ -6,4 +6,6 @@ INVARIANT BoundaryAgrees
 INVARIANT SplitIsPartition
 INVARIANT NormHasNoBareLF
 INVARIANT NormIdempotent
+INVARIANT NormByLineAgrees
+INVARIANT FlatAgrees
 CHECK_DEADLOCK FALSE
